@@ -49,7 +49,9 @@ META = {
                   "shape is a directed case of every run (its round-trip oracle failure is reported as KNOWN-FINDING, any "
                   "other oracle failure is a VIOLATION), the first runs in a process of its own in the thorough tier. heap_roundtrip's host part is for the object-preserving pair of the "
                   "harness (host_pair), not for dawn's envPickler/envUnpickler, which rebuilds functions (C08/C01 territory). "
-                  "Only *List/*Dict among Sequence/IterableMapping hosts. Transitivity of iso is not proved. Isolation: the "
+                  "Only *List/*Dict among Sequence/IterableMapping hosts. iso is proved an equivalence on well-formed graphs and the "
+                  "consequently clause holds for heaps (heap_distinct); for dawn's own pair the round trip is refuted for every "
+                  "object kind (env_roundtrip_never_iso), only the clause on stamps holds (env_stamp_injective). Isolation: the "
                   "deterministic schedules interleave instances only at call-outs of the package; state shared between instances "
                   "that is written and read with no call-out in between is only reachable by the free-running groups (real "
                   "parallelism, detection not deterministic).",
